@@ -867,8 +867,8 @@ class TableBuilder:
                 self.links.setdefault(j.index, []).append((lid, il.follower_index))
         self.ftab, self.ttab, self.gq, self.gbad, self.jbad = {}, {}, {}, [], []
         self.fg = fresh_grid(b, g.points)
-        self.pts = [np.array(p, dtype=float) for p in rec["init"][0]]
-        self.prm = [np.array(x, dtype=float) for x in rec["init"][1]]
+        self.ties = 0
+        self.reset()
 
     def state_ids(self):
         return [self.P(p) for p in self.pts]
@@ -913,8 +913,15 @@ class TableBuilder:
             return self.grid_q()
         return self.junction_q(j)
 
-    def run(self):
-        """walks through the recorded calls exactly as the model will; returns the event list"""
+    def reset(self):
+        np = self.np
+        self.pts = [np.array(p, dtype=float) for p in self.rec["init"][0]]
+        self.prm = [np.array(x, dtype=float) for x in self.rec["init"][1]]
+
+    def run(self, strict=False):
+        """walks through the recorded calls exactly as the model will; returns the event list.
+        strict: the rollback test reads "improvement < 0" (exact ties are kept), the second reading the
+        correspondence accepts at the discontinuity of that decision (Model/C13_Cases.check_case)"""
         rec = self.rec
         events = []  # ("measure",) | ("probe", cid, [xid]) | ("opt", cid, [xid], raises)
         outcomes = {}
@@ -955,8 +962,10 @@ class TableBuilder:
                         if ok and not call["min_raised"]:
                             jq = self.junction_q(self.cj[cid])
                             q1 = self.grid_q()
-                            if jq is not None and q1 is not None and not (q0 <= q1):
-                                kept = True
+                            if jq is not None and q1 is not None:
+                                if q0 == q1 and call["trials"] and not self.np.array_equal(call["trials"][-1], x0):
+                                    self.ties += 1
+                                kept = not (q0 < q1) if strict else not (q0 <= q1)
                         outcomes["kept" if kept else "restored"] = outcomes.get("kept" if kept else "restored", 0) + 1
                         if not kept:
                             if self.move(cid, x0) is None:
@@ -983,6 +992,12 @@ def emit_case(k, rec, b):
     np = _np()
     tb = TableBuilder(rec, b)
     events = tb.run()
+    outcomes = tb.outcomes
+    ties = tb.ties
+    if ties:
+        # an exact tie at a rollback decision: tabulate the arguments of the other reading as well
+        tb.reset()
+        tb.run(strict=True)
     nclamps = len(b.clamps)
     # snapshots of the implementation at every scipy call and at the end
     snaps = []
@@ -1023,8 +1038,8 @@ def emit_case(k, rec, b):
     o.append("Definition %sraised : bool := %s." % (pre, "true" if rec["exception"] else "false"))
     o.append("Definition case_%d : bool := check_case %d%%nat %sftab %sttab %sgq %sgbad %sjbad %scj %slinks %sevents %sinit %ssnaps %sfinal %smesh0 %smesh1 %siters %sraised."
              % ((k, nclamps) + (pre,) * 15))
-    info = dict(events=len(events), trials=sum(len(c["trials"]) for c in rec["calls"]), outcomes=tb.outcomes,
-                degenerate=len(tb.gbad) + len(tb.jbad))
+    info = dict(events=len(events), trials=sum(len(c["trials"]) for c in rec["calls"]), outcomes=outcomes,
+                degenerate=len(tb.gbad) + len(tb.jbad), ties=ties)
     return "\n".join(o) + "\n", info
 
 
@@ -1066,6 +1081,9 @@ class C13(Prop):
         "that a clamp function maps into its manifold and a link transform realises its relation is C17; here it is "
         "checked numerically by the direct oracle on every case",
         "the optimizer correspondence is sampled (random assemblies / sketches, scripted and recorded minimisers)",
+        "the rollback decision 'improvement <= 0' is compared exactly; only at an exact tie of the two binary64 quality "
+        "values (its discontinuity, DESIGN 2.4) the reading 'improvement < 0' is accepted too (counted as boundary); both "
+        "readings satisfy the hypotheses of the theorems (C13_correspondence_tests_covered)",
     ]
     partial = []
 
@@ -1123,6 +1141,9 @@ class C13(Prop):
                 res.count("outcome=" + key, v)
             for sk, v in out["scripts"].items():
                 res.count("script=" + sk, v)
+            if out["info"].get("ties"):
+                res.boundary += 1
+                res.count("exact-ties-at-rollback-test", out["info"]["ties"])
             if out["info"].get("degenerate"):
                 res.count("degenerate-states", out["info"]["degenerate"])
             if out["info"].get("trials", 0) > 0:
